@@ -84,6 +84,22 @@ DIGIT_LIMIT = ["@print 10**5000", "@assert 10**5000 / 0 == 1", "uint8 X = 10**50
                "@extent 10**5000 * 8", "uint64 z\n@extent -(10**5000) * 8"]          # %d of a huge native int
 
 
+# one line per operator x operand-class family, including the exotic operands (sets of sets, sets of types, singletons,
+# mixed-sign / non-integer rationals, strings that need NFC normalisation); expectation as for every text: a model or an
+# InvalidDefinitionError, never InternalError
+_FAMILIES = ["true", "(-1/2)", "(5/2)", "0", "'\\u00e9'", "'e\\u0301'", "uint8", "{1, 2}", "{-3, 5/2, 0}", "{'a', 'b'}",
+             "{'\\u00e9', 'e\\u0301'}", "{true, false}", "{-1/2}", "{'a'}", "{true}", "{{1}, {2}}", "{{1}}", "{uint8, uint16}",
+             "{bool}", "{uint8}", "{_offset_}", "{{uint8}}"]
+_BINARY = ["||", "&&", "==", "!=", "<=", ">=", "<", ">", "|", "^", "&", "+", "-", "*", "/", "%", "**"]
+OPERATOR_TABLE = (["@print %s %s %s" % (a, op, a) for op in _BINARY for a in _FAMILIES]
+                  + ["@print %s %s 2" % (a, op) for op in _BINARY for a in _FAMILIES]
+                  + ["@print (-1/2) %s %s" % (op, a) for op in _BINARY for a in _FAMILIES]
+                  + ["@print %s%s" % (u, a) for u in ("!", "+", "-") for a in _FAMILIES]
+                  + ["@print %s.%s" % (a, n) for n in ("min", "max", "count", "foo", "_bit_length_", "_extent_") for a in _FAMILIES]
+                  + ["@assert {uint8, uint16}.max == uint16", "@assert {{1}, {2}}.min == {1}", "@assert {bool}.min == bool",
+                     "@assert {_offset_}.max == {0}", "@print {{1}, {2}}.min.max", "@print {uint8, uint16}.count"])
+
+
 def whole_text(eng, tier, seed):
     """The statement itself, natively and bounded: targeted corner cases and seeded token-level mutations of them are read
     through pydsdl.read_namespace; anything other than success or an InvalidDefinitionError is a violation."""
@@ -95,7 +111,7 @@ def whole_text(eng, tier, seed):
     import pydsdl
 
     rng = random.Random(seed)
-    texts = list(TARGETED) + list(DIGIT_LIMIT)
+    texts = list(TARGETED) + list(DIGIT_LIMIT) + list(OPERATOR_TABLE)
     toks = sorted(set(t for x in TARGETED for t in x.replace("(", " ( ").replace(")", " ) ").split()))
     for _ in range(600 if tier == "quick" else 6000):
         base = rng.choice(TARGETED).split(" ")
